@@ -72,6 +72,11 @@ var opStart int64
 func opBegin() { atomic.StoreInt64(&opStart, time.Now().UnixNano()) }
 func opEnd()   { atomic.StoreInt64(&opStart, 0) }
 
+// OpAbandon: the caller has given up waiting for the operation in flight (per-case hang guard of
+// main) and has reported it; the blocked goroutine will never reach opEnd, so the clock of the
+// watchdog is stopped here - otherwise it would end the process while the report is written.
+func OpAbandon() { opEnd() }
+
 func opLimit() time.Duration {
 	if v, err := strconv.Atoi(os.Getenv("VERIF_CASE_TIMEOUT_S")); err == nil && v > 0 {
 		return time.Duration(v) * time.Second
